@@ -100,7 +100,7 @@ theorem unionLoop_singles (s f : Nat) (ls : List Row) (h : Singles s ls) :
     | nil => exact absurd rfl hPne
     | cons p ps =>
       have hp := ((hPmem p).mp (by simp)).2
-      refine ⟨Or.inr ⟨_, by simp [Row.unionSegs, hp]⟩, ?_⟩
+      refine ⟨Or.inr ⟨ps.foldl (fun acc o => sUnion acc o.cols) p.cols, by simp [Row.unionSegs, hp]⟩, ?_⟩
       intro c
       simp only [Row.unionSegs, Row.cols, flatMap_cons, flatMap_nil, append_nil, mem_foldl_sUnion]
       constructor
@@ -136,7 +136,8 @@ theorem unionK_singles (s : Nat) (r : Row) (others : List Row) (h : Singles s (r
           · have := ih hl; omega
       rw [hf] at this
       exact length_eq_zero_iff.mp (by omega)
-    simp only [Row.unionLoop]
+    have e0 : Row.unionLoop 0 (r :: others) = [] := rfl
+    rw [e0]
     refine ⟨Or.inl rfl, ?_⟩
     intro c
     constructor
